@@ -184,7 +184,11 @@ impl Coord {
             a.completed += 1;
         }
         let fired: u64 = out.faults.values().sum();
-        let nontrivial = out.completed && (out.nontrivial || out.interleaved || fired > 0);
+        // a scenario may state its own rule ("strict"): then only its verdict counts
+        let nontrivial = match out.extra.get("strict_nontrivial").and_then(|v| v.as_bool()) {
+            Some(b) => out.completed && b,
+            None => out.completed && (out.nontrivial || out.interleaved || fired > 0),
+        };
         if nontrivial {
             a.nontrivial += 1;
             a.sched_sigs.insert(out.sched_sig ^ super::sim::hash_str(&spec.variant));
@@ -491,7 +495,7 @@ pub fn write_replay(co: &Coord, spec: &RunSpec, sig: &str, original: &RunOut, mi
         ),
         None => (vec![], String::new(), false),
     };
-    let dir = format!("{}/replays", verif_dir());
+    let dir = std::env::var("VERIF_REPLAY_DIR").unwrap_or_else(|_| format!("{}/replays", verif_dir()));
     let _ = std::fs::create_dir_all(&dir);
     let path = format!("{}/{}-{}-{:08x}.json", dir, co.def.id, spec.seed, super::sim::hash_str(sig) as u32);
     let repo_rev = std::process::Command::new("git")
